@@ -7,7 +7,11 @@ HEAD, demo, meta.json).  Usage: seedcheck.py C12 A [--adopt] [--no-baseline]"""
 import json, os, re, shutil, subprocess, sys, tempfile
 ID, V = sys.argv[1], sys.argv[2]
 adopt = "--adopt" in sys.argv
-src = f"/tmp/seed/{ID}/{V}"
+src = os.environ.get("SEED_DIR", "/tmp/seed") + f"/{ID}/{V}"
+AS = V
+for i, a in enumerate(sys.argv):
+    if a == "--as":
+        AS = sys.argv[i + 1]
 env = dict(os.environ, GOFLAGS="-mod=mod", GOPROXY="off", GOSUMDB="off", GOTOOLCHAIN="local")
 env.pop("GOWORK", None)
 def sh(cmd, cwd=None, check=False, timeout=1800):
@@ -59,13 +63,13 @@ try:
     ok = res["demo_fails_with_change"] and res["demo_passes_without_change"] and res.get("baseline_passes_with_change", True)
     res["confirmed"] = ok
     if adopt and ok:
-        dst = f"/verif/seeded/{ID}-{V}"
+        dst = f"/verif/seeded/{ID}-{AS}"
         os.makedirs(dst, exist_ok=True)
         open(f"{dst}/patch.diff", "w").write(diff)
         shutil.copy(f"{src}/demo_test.go", f"{dst}/demo_test.go")
         notes = open(f"{src}/notes.md").read() if os.path.exists(f"{src}/notes.md") else ""
         head = sh("git -C /repo rev-parse --short HEAD")[1].strip()
-        json.dump({"property": ID, "variant": V, "breaks": ID, "files": res["files"], "demo_path": demo_path, "demo_cmd": cmd,
+        json.dump({"property": ID, "variant": AS, "breaks": ID, "files": res["files"], "demo_path": demo_path, "demo_cmd": cmd,
                    "needs_to_manifest": notes[:3000], "confirmed_against_repo_head": head,
                    "what_i_ran": ["git apply patch onto scratch worktree of /repo HEAD; go build ./...",
                                    "tools/baseline.py with the change: all 653 stable tests pass" if "baseline_passes_with_change" in res else "baseline not re-run",
